@@ -1,7 +1,7 @@
 /* all arguments nondeterministic: the contract's requires clauses (is_fresh, lengths,
  * data invariants) define the domain; pointers are allocated by __CPROVER_is_fresh */
 void harness(void) {
-  VERIF_HAVOC_GLOBALS();
+  VERIF_PROLOGUE();
   blake3_hasher *self;
   uint64_t total_len;
   hasher_merge_cv_stack(self, total_len);
